@@ -3,6 +3,9 @@ package engine
 import (
 	"bytes"
 	"context"
+	"crypto/sha256"
+	"encoding/hex"
+	"encoding/json"
 	"fmt"
 	"os"
 	"os/exec"
@@ -26,7 +29,47 @@ var Solvers = []Solver{
 	{Name: "z3-4.8.12", Bin: "z3", Args: func(t int, f string) []string { return []string{"-smt2", fmt.Sprintf("-t:%d", t), f} }},
 }
 
+// answer cache: identical query text => identical answer (keyed by SHA-256 of the query).
+// Only definite answers are cached.  Disabled when CacheDir is empty.
+type cacheEntry struct {
+	Status string  `json:"status"`
+	Solver string  `json:"solver"`
+	TimeS  float64 `json:"time_s"`
+}
+
+func cachePath(dir, script string) string {
+	h := sha256.Sum256([]byte(script))
+	x := hex.EncodeToString(h[:])
+	return filepath.Join(dir, x[:2], x)
+}
+
+func cacheGet(dir, script string) (cacheEntry, bool) {
+	var e cacheEntry
+	if dir == "" {
+		return e, false
+	}
+	data, err := os.ReadFile(cachePath(dir, script))
+	if err != nil || json.Unmarshal(data, &e) != nil {
+		return e, false
+	}
+	return e, e.Status == "unsat" || e.Status == "sat"
+}
+
+func cachePut(dir, script string, e cacheEntry) {
+	if dir == "" || (e.Status != "unsat" && e.Status != "sat") {
+		return
+	}
+	p := cachePath(dir, script)
+	os.MkdirAll(filepath.Dir(p), 0o755)
+	data, _ := json.Marshal(e)
+	tmp := p + ".tmp"
+	if os.WriteFile(tmp, data, 0o644) == nil {
+		os.Rename(tmp, p)
+	}
+}
+
 type SolveOpts struct {
+	CacheDir   string
 	Progress   func(o *Obligation)
 	NoEscalate bool
 	TimeoutMs  int
@@ -131,6 +174,14 @@ func Solve(vc *VC, opts SolveOpts) error {
 				i, o := j.i, j.o
 				fb := fmt.Sprintf("%s.%d", base, i)
 				need2 := opts.SecondOpin && !o.Cover
+				key := queryScript(vc, o, false)
+				if ce, ok := cacheGet(opts.CacheDir, key); ok && !need2 {
+					o.Status, o.Solver, o.TimeS, o.Cached = ce.Status, ce.Solver, ce.TimeS, true
+					if opts.Progress != nil {
+						opts.Progress(o)
+					}
+					continue
+				}
 				err := solveOne(vc, o, fb, []Solver{Solvers[0], Solvers[1]}, first, need2, false)
 				want := "unsat"
 				if o.Cover {
@@ -141,6 +192,9 @@ func Solve(vc *VC, opts SolveOpts) error {
 					err = solveOne(vc, o, fb+".x", Solvers, opts.TimeoutMs*3, need2, true)
 				} else if err == nil && need2 && o.Status == "unsat" && !strings.Contains(o.Solver, "+") {
 					err = solveOne(vc, o, fb+".x", Solvers, opts.TimeoutMs*3, true, false)
+				}
+				if err == nil && o.Status != "sat" {
+					cachePut(opts.CacheDir, key, cacheEntry{o.Status, o.Solver, o.TimeS})
 				}
 				if opts.Progress != nil {
 					opts.Progress(o)
